@@ -58,9 +58,23 @@ Print Assumptions C18_dup_tail_same_root.
 Theorem C18_binding :
   forall l1 l2 : list h, all_leaves l1 -> all_leaves l2 -> l1 <> [] -> l2 <> [] ->
     get_merkle_root h HNil sym_hash2 l1 = get_merkle_root h HNil sym_hash2 l2 ->
-    l1 = l2 \/ (l1 <> l2 /\ dup_tail_related h l1 l2).
+    l1 = l2 \/
+    (l1 <> l2 /\ dup_tail_related h l1 l2 /\
+     (* the longer of the two is reported as mutated *)
+     (if (length l1 <? length l2)%nat
+      then comp_mutated h HNil sym_hash2 h_eqb l2 = true
+      else comp_mutated h HNil sym_hash2 h_eqb l1 = true)).
 Proof. exact binding_thm. Qed.
 Print Assumptions C18_binding.
+
+(** any two equal aligned sibling blocks (in particular an aligned duplicated tail)
+    make Computation report mutated = true; needs only that the comparison is reflexive *)
+Theorem C18_equal_siblings_flagged :
+  forall (T : Type) (nilT : T) (hash2 : T -> T -> T) (eqT : T -> T -> bool),
+    (forall x, eqT x x = true) ->
+    forall l : list T, haspair T l -> comp_mutated T nilT hash2 eqT l = true.
+Proof. exact pair_flagged_thm. Qed.
+Print Assumptions C18_equal_siblings_flagged.
 
 Theorem C18_child_roots_verify :
   forall (T : Type) (nilT : T) (hash2 : T -> T -> T) (eqT : T -> T -> bool)
